@@ -68,8 +68,10 @@ func (q *Queue) Insert(i interface{}) (bool, error) {
 		return false, errClosedQueue
 	default:
 	}
+	verifAt("insert.checked", q)
 
 	ok := q.insert(i)
+	verifAt("insert.done", q)
 
 	if ok {
 		select {
@@ -103,6 +105,7 @@ func (q *Queue) Next(ctx context.Context) (interface{}, uint32, error) {
 		if valid {
 			return i, coalesced, nil
 		}
+		verifAt("next.empty", q)
 		// Wait for an insert or a close.
 		select {
 		case <-ctx.Done():
